@@ -271,4 +271,11 @@ theorem stage4_of_mem {db : DB} {d : Diag}
   ne_nil_of_mem (a := d) (by simpa [DB.stage4] using h)
 
 
+
+/-- the analyses process nothing else: every processed component is a root or needed by one. -/
+theorem reach_sound {db : DB} {c : Nat} (h : c ∈ db.reach) : db.Reachable c := by
+  obtain ⟨_, r, hr, hreach⟩ := closure_sound db.deps db.n db.roots h
+  have := mem_roots.mp hr
+  exact ⟨r, this.1, this.2, hreach⟩
+
 end Pxv.Rules
